@@ -3,6 +3,7 @@ import TD.C06.LemmasPlan
 import TD.C06.LemmasLoad
 import TD.C06.LemmasMulti
 import TD.C06.LemmasSel
+import TD.C06.LemmasInd
 import TD.C06.LemmasReads
 import TD.C06.LemmasX
 
@@ -825,5 +826,108 @@ do not depend on the selection -/
 theorem rowSel_is_restriction (d : Dfsr) (p : Plan) (cs : List Nat) (frame : List Nat) :
     rowSel d p cs frame = cs.flatMap (fun c => rowSel d p [c] frame) := by
   simp [rowSel]
+
+/-! ## Implied X — the exact value rule, in general
+
+For every indirect-X log pass (recording mode 1, X word of `w > 0` bytes in an integer-decodable code, frame spacing
+units = depth units) with data records at strictly increasing positions, every slice inside the frame count (any step),
+every non-empty channel selection and every earlier frame set: the load succeeds and the implied X vector is
+`allXs spacing xrec step groups none`, where `groups` is the grouping of the requested frames by record and, record
+after record (`entryXs` / `entryBase`):
+* the first loaded frame of a record whose first selected offset `a` is 0 gets the record's own X word;
+* with `a > 0` it gets `X word + a·spacing` in the first loaded record, but `X of the previously loaded frame +
+  a·spacing` in every later record — the defect F7;
+* every further frame of the record gets `step·spacing` more than the one before.
+`spacing` is `-|s|` for an up log and `|s|` otherwise. This is the wrong-value rule of the oracle, now a theorem. -/
+
+theorem implied_x_rule
+    (d : Dfsr) (w : Nat) (s : Int) (rle : List Item01) (st : Store) (fsOld : Option FrameSet) (sl : Option Sl)
+    (chList : Option (List Nat))
+    (hi : IndCtx d ⟨w, d.chans.map Chan.size⟩ w) (hu : d.spacingUnits = d.depthUnits) (hs : d.spacing = some s)
+    (hcl : ∀ c ∈ selIdxI d chList, c < d.chans.length) (hne : selIdxI d chList ≠ [])
+    (hR : IncTells (expand rle))
+    (hst : ∀ tn ∈ expand rle, ∃ bs x, Store.find st tn.1.toNat = some bs ∧ bs.head? = some d.dataType ∧
+      bs.length = 2 + w + tn.2 * sumN (d.chans.map Chan.size) ∧ xDecode d.depthRc (beWord ((bs.drop 2).take w)) = .ok x)
+    (hlt : (slOrAll sl (rle01Total rle)).start < (slOrAll sl (rle01Total rle)).stop)
+    (hstop : (slOrAll sl (rle01Total rle)).stop ≤ rle01Total rle) :
+    ∃ ops, (setFrameSet ⟨d, ⟨w, d.chans.map Chan.size⟩, 0, rle, fsOld⟩ st sl chList).2 = .ok ops ∧
+      (setFrameSet ⟨d, ⟨w, d.chans.map Chan.size⟩, 0, rle, fsOld⟩ st sl chList).1.frameSet.map (·.xvec)
+        = some ((allXs (spacingOf d s) (xrecOf d st w) (slOrAll sl (rle01Total rle)).step1
+            (groupsOf (expand rle) (slOrAll sl (rle01Total rle)).start (slOrAll sl (rle01Total rle)).stop
+              (slOrAll sl (rle01Total rle)).step1) none).map some) := by
+  have hsorted : (selIdxI d chList).Pairwise (· < ·) := by
+    cases chList with
+    | none => exact List.pairwise_lt_range
+    | some l => exact sortDedup_sorted _
+  have hnewG := fun S => new_indirect d S chList s hi.hrm hu hs hcl
+  generalize hcsdef : selIdxI d chList = cs at hsorted hcl hne hnewG
+  cases cs with
+  | nil => exact absurd rfl hne
+  | cons c0 rest =>
+  generalize hS : slOrAll sl (rle01Total rle) = S at hlt hstop
+  obtain ⟨a, b, cc0⟩ := S
+  simp only at hlt hstop
+  have hstep : 0 < (Sl.mk a b cc0).step1 := by unfold Sl.step1; split <;> omega
+  have hnew := hnewG ⟨a, b, cc0⟩
+  simp only at hnew
+  generalize hc : (Sl.mk a b cc0).step1 = c at hstep hnew
+  have hn0 : rle01Total rle ≠ 0 := by omega
+  let loc : Nat → Int × Nat := fun f => (locate (expand rle) f).getD (0, 0)
+  have hloc : ∀ f, f < b → locate (expand rle) f = some (loc f) := by
+    intro f hf
+    obtain ⟨r, hr⟩ := locate_lt (expand rle) f (by rw [← expand_total]; omega)
+    simp [loc, hr]
+  have htell : ∀ f ∈ rangeList a b c, rle01Tell rle f = .ok (loc f) := by
+    intro f hf
+    rw [rle01Tell_locate, hloc f (mem_rangeList a b c f hf).2]
+  obtain ⟨hG, hflat⟩ := foldMap_grouped c ((rangeList a b c).map loc) [] ⟨by simp, by simp⟩
+    (chain_of_frames (expand rle) hR c hstep loc a b (fun f _ h2 => hloc f h2))
+    (by cases (rangeList a b c).map loc with
+        | nil => trivial
+        | cons q _ => exact Or.inl rfl)
+  have hGeq : groupsOf (expand rle) a b c = foldMap [] ((rangeList a b c).map loc) := rfl
+  rw [hGeq]
+  generalize hGdef : foldMap [] ((rangeList a b c).map loc) = G at hG hflat
+  simp only [flat, List.flatMap_nil, List.nil_append] at hflat
+  have hflat' : flat G = (rangeList a b c).map loc := hflat
+  have hmap : retFrameSetMap ⟨d, ⟨w, d.chans.map Chan.size⟩, 0, rle, fsOld⟩ ⟨a, b, cc0⟩ = .ok G := by
+    unfold retFrameSetMap
+    simp only [hc]
+    rw [retFrameSetMapAux_fold rle loc _ htell, hGdef]
+    simp only [sortByKey_sorted G hG.1]
+  have hfsz : (⟨w, d.chans.map Chan.size⟩ : Plan).frameSize = sumN (d.chans.map Chan.size) := rfl
+  have hent : ∀ e ∈ G, EntryOkX d ⟨w, d.chans.map Chan.size⟩ w st c e := by
+    intro e he
+    obtain ⟨a', len, hbuf⟩ := hG.2 e he
+    have hmemflat : (e.1, a' + len * c) ∈ flat G := by
+      simp only [flat, List.mem_flatMap, List.mem_map]
+      refine ⟨e, he, a' + len * c, ?_, rfl⟩
+      rw [hbuf, ap]; simp only [List.mem_map, List.mem_range]; exact ⟨len, by omega, rfl⟩
+    rw [hflat'] at hmemflat
+    obtain ⟨f, hf, hlf⟩ := List.mem_map.1 hmemflat
+    have hlocf := hloc f (mem_rangeList a b c f hf).2
+    rw [hlf] at hlocf
+    obtain ⟨n, hmem, hlt'⟩ := locate_mem _ _ _ _ hlocf
+    obtain ⟨bs, x, h1, h2, h3, h4⟩ := hst (e.1, n) hmem
+    exact ⟨a', len, n, bs, x, hbuf, h1, h2, by rw [hfsz]; exact h3, h4, hlt'⟩
+  have hlenR : rangeLen a b c = (rangeList a b c).length := by simp [rangeList]
+  have hsum : (G.map (·.2.length)).sum = rangeLen a b c := by
+    rw [← flat_length, hflat', List.length_map, hlenR]
+  obtain ⟨evs, r', hgen, hex, _, _, hxv⟩ := entries_exec_ind d st c ⟨w, d.chans.map Chan.size⟩ w (spacingOf d s) c0 rest hi hstep hcl hsorted G 0
+    ⟨none, 0, ⟨c0 :: rest, rangeLen a b c,
+          List.replicate (rangeLen a b c) (List.replicate (sumN ((selChans d (c0 :: rest)).map Chan.numValues)) none),
+          List.replicate (rangeLen a b c) none, some (spacingOf d s)⟩, []⟩ none hent rfl
+    (by intro row hm; rw [List.eq_of_mem_replicate hm, List.length_replicate]) (by simp [hsum]) (by simp) rfl (Or.inl ⟨rfl, rfl⟩)
+  have hnF : rangeLen a b c ≠ 0 := by
+    have := rangeLen_lt a b c hlt hstep; omega
+  have hevs : genFrameSetEvents ⟨d, ⟨w, d.chans.map Chan.size⟩, 0, rle, fsOld⟩ ⟨a, b, cc0⟩ (c0 :: rest) = .ok evs := by
+    unfold genFrameSetEvents
+    rw [hmap]; exact hgen
+  unfold setFrameSet
+  simp only [hn0, if_false, hS, hnew, hnF, hevs, hex]
+  refine ⟨_, rfl, ?_⟩
+  simp only [Option.map_some, hxv, Option.some.injEq]
+  apply setVals_full
+  rw [allXs_length _ _ _ _ _ (by intro e he; obtain ⟨a', len, hb⟩ := hG.2 e he; rw [hb]; simp [ap]), hsum]
 
 end TD.C06
